@@ -120,5 +120,7 @@ Print Assumptions C08_istp_chi_agrees.
 Example C08_nonvacuous_istp_chi :
   let J := mkS [(1,0);(0,0);(0,0);(1,0); (0,0);(0,0);(0,0);(0,0);
                 (0,0);(0,0);(0,0);(0,0); (1,0);(0,0);(0,0);(1,0)]%Z (([2], [2]), ([2], [2])) Choi in
-  exists C, s_rep J = Choi /\ choi_to_chi J = Ok C /\ istp (QSuper C) = Some true.
-Proof. eexists. split; [reflexivity|]. split; vm_compute; reflexivity. Qed.
+  exists C, s_rep J = Choi /\ choi_to_chi J = Ok C /\ s_rep C = Chi.
+Proof. eexists. split; [reflexivity|]. split; [vm_compute; reflexivity|reflexivity]. Qed.
+(* the verdicts themselves (Some true on both sides, and Some false on a non-TP
+   map) are evaluated in Props/C08.v, C08_istp_chi_witnesses *)
